@@ -8,9 +8,11 @@ import (
 	"encoding/json"
 	"fmt"
 	"math/bits"
+	"os"
 	"runtime"
 	"runtime/debug"
 	"sort"
+	"strings"
 	"sync"
 	"sync/atomic"
 	"time"
@@ -478,7 +480,11 @@ func RunAll(r *ev.Run, scs []Scenario, replay *ev.ReplayDoc) {
 		r.HarnessError("replay: unknown scenario " + replay.Scenario)
 		return
 	}
+	only := os.Getenv("VERIF_ONLY_SCENARIO") // development aid: run the scenarios whose name contains this
 	for _, s := range scs {
+		if only != "" && !strings.Contains(s.ScenarioName(), only) {
+			continue
+		}
 		s.Exec(r)
 	}
 }
